@@ -162,32 +162,40 @@ Fixpoint field_spec (fuel : nat) (l : list N) (sp : format_spec) : option (forma
       end
   end.
 
-(* items up to the end (true) or up to the first malformed field (false) *)
+(* the literal text at the head of l with "{{" and "}}" reduced to single braces (a lone '}' is
+   literal text), and what is left: nothing, or text starting with the '{' of a field *)
+Fixpoint lit_prefix (l : list N) : list N * list N :=
+  match l with
+  | [] => ([], [])
+  | c :: t =>
+      if c =? 123 then
+        match t with
+        | c1 :: t1 => if c1 =? 123 then let '(b, r) := lit_prefix t1 in (123 :: b, r) else ([], l)
+        | [] => ([], l)
+        end
+      else if c =? 125 then
+        match t with
+        | c1 :: t1 => if c1 =? 125 then let '(b, r) := lit_prefix t1 in (125 :: b, r)
+                      else let '(b, r) := lit_prefix t in (125 :: b, r)
+        | [] => ([125], [])
+        end
+      else let '(b, r) := lit_prefix t in (c :: b, r)
+  end.
+
+(* items up to the end (true) or up to the first malformed field (false); one unit of fuel per
+   field, S (length l) is always enough *)
 Fixpoint scan (fuel : nat) (l : list N) : list item * bool :=
   match fuel with
   | O => ([], false)
   | S f =>
-      match l with
-      | [] => ([], true)
-      | c :: t =>
-          if c =? 123 then
-            match t with
-            | c1 :: t1 =>
-                if c1 =? 123 then let '(its, ok) := scan f t1 in (ILit 123 :: its, ok)      (* "{{" *)
-                else match field_spec (S (length t)) t default_spec with
-                     | Some (sp, rest) => let '(its, ok) := scan f rest in (IField sp :: its, ok)
-                     | None => ([], false)
-                     end
-            | [] => ([], false)                                  (* '{' at the end: unterminated *)
-            end
-          else if c =? 125 then
-            match t with
-            | c1 :: t1 =>
-                if c1 =? 125 then let '(its, ok) := scan f t1 in (ILit 125 :: its, ok)      (* "}}" *)
-                else let '(its, ok) := scan f t in (ILit 125 :: its, ok)
-            | [] => ([ILit 125], true)
-            end
-          else let '(its, ok) := scan f t in (ILit c :: its, ok)
+      let '(b, r) := lit_prefix l in
+      match r with
+      | [] => (map ILit b, true)
+      | _ :: t =>                                   (* the '{' of a field *)
+          match field_spec (S (length t)) t default_spec with
+          | Some (sp, rest) => let '(its, ok) := scan f rest in (map ILit b ++ IField sp :: its, ok)
+          | None => (map ILit b, false)
+          end
       end
   end.
 
